@@ -2,8 +2,8 @@
    the alignment loops lay the ranges out one after the other; the shrinking loops subtract from
    every range the number of dropped triangles inside it. Consequence: segments stay contiguous,
    ordered, inside the triangle list and sum to the new triangle count; sub-segments stay
-   contiguous and inside their segment - but start at the segment's start, which is the defect
-   recorded as C17-refit-first-subsegment-start. *)
+   contiguous, start after the triangles the segment owns itself and end where the segment ends
+   (since the repair of C17-refit-first-subsegment-start). *)
 From NiflyVerif Require Import Res UtilModel UtilSpec CompactProofs EraseProofs FillProofs
   GeomModel SegModel GeomBase GeomSpec GeomProofs GeomSkinProofs GeomStripProofs SegSort SegProofs.
 From Coq Require Import ZifyBool ZifyNat ZifyN Sorted.
@@ -21,7 +21,8 @@ Fixpoint layout_subs (start : N) (subs : list subseg) : list subseg :=
 Fixpoint layout_segs (start : N) (segs : list seg) : list seg :=
   match segs with
   | [] => []
-  | s :: r => mkSeg start (sg_num s) (sg_nsub s) (layout_subs start (sg_subs s))
+  | s :: r => mkSeg start (sg_num s) (sg_nsub s)
+                    (layout_subs (wrap32 (start + seg_own (sg_num s) (sg_subs s) * 3)) (sg_subs s))
               :: layout_segs (wrap32 (start + sg_num s * 3)) r
   end.
 
@@ -61,7 +62,8 @@ Lemma align_segs_step todo pos nseg segs i :
   match vget segs pos with
   | None => Fault
   | Some cur =>
-    bind (align_subs (length (sg_subs cur)) 0 (sg_start cur) (sg_nsub cur) (sg_subs cur) 0) (fun subs' =>
+    bind (align_subs (length (sg_subs cur)) 0 (wrap32 (sg_start cur + seg_own (sg_num cur) (sg_subs cur) * 3))
+                     (sg_nsub cur) (sg_subs cur) 0) (fun subs' =>
     let cur' := mkSeg (sg_start cur) (sg_num cur) (sg_nsub cur) subs' in
     match vset segs pos cur' with
     | None => Fault
@@ -135,8 +137,8 @@ Proof. destruct s; reflexivity. Qed.
 
 Definition seg_counts_ok (s : seg) : Prop := sg_nsub s = vlen (sg_subs s).
 
-Lemma align_one_subs s : seg_counts_ok s ->
-  align_subs (length (sg_subs s)) 0 (sg_start s) (sg_nsub s) (sg_subs s) 0 = Ok (layout_subs (sg_start s) (sg_subs s)).
+Lemma align_one_subs s start : seg_counts_ok s ->
+  align_subs (length (sg_subs s)) 0 start (sg_nsub s) (sg_subs s) 0 = Ok (layout_subs start (sg_subs s)).
 Proof.
   intros H. rewrite H. destruct (sg_subs s) as [|c r] eqn:Hs; [reflexivity|].
   rewrite <- Hs. apply align_subs_all. rewrite Hs. discriminate.
@@ -159,7 +161,8 @@ Proof.
     rewrite align_one_subs by exact Hc. cbn [bind]. cbv zeta. rewrite vset_app_mid.
     assert (Hl : vlen (nxt :: rest) = vlen rest + 1) by (unfold vlen; cbn [length]; lia). rewrite Hl in Hn.
     destruct (N.leb_spec nseg (vlen done + 1)); [lia|].
-    set (cur' := mkSeg (sg_start cur) (sg_num cur) (sg_nsub cur) (layout_subs (sg_start cur) (sg_subs cur))).
+    set (cur' := mkSeg (sg_start cur) (sg_num cur) (sg_nsub cur)
+                       (layout_subs (wrap32 (sg_start cur + seg_own (sg_num cur) (sg_subs cur) * 3)) (sg_subs cur))).
     assert (Hd1 : vlen (done ++ [cur']) = vlen done + 1) by (unfold vlen; rewrite app_length; cbn [length]; lia).
     replace (done ++ cur' :: nxt :: rest) with ((done ++ [cur']) ++ nxt :: rest) by (rewrite <- app_assoc; reflexivity).
     rewrite <- Hd1. rewrite vget_app_mid. rewrite vset_app_mid.
@@ -379,17 +382,7 @@ Proof.
 Qed.
 
 (* ---------------------------------------------------------------------------------------- *)
-(* the range facts the re-fit keeps *)
-
-(* sub-segments contiguous from the segment's START (not from the end of the segment's own
-   triangles: the recorded defect) and inside the segment *)
-Definition seg_tile_w (pos : N) (s : seg) : Prop :=
-  sg_start s = 3 * pos /\ sg_nsub s = vlen (sg_subs s) /\
-  exists e, subs_tile pos (sg_subs s) e /\ e <= pos + sg_num s.
-
-Inductive segs_tile_w : N -> list seg -> N -> Prop :=
-| gw_nil p : segs_tile_w p [] p
-| gw_cons p s r e : seg_tile_w p s -> segs_tile_w (p + sg_num s) r e -> segs_tile_w p (s :: r) e.
+(* the range facts the re-fit keeps: the tiling of SetSegmentation ([segs_tile]) is preserved *)
 
 Lemma count_in_split D a b c : a <= b -> b <= c -> count_in D a c = count_in D a b + count_in D b c.
 Proof.
@@ -421,6 +414,30 @@ Lemma count_in_all D b : Forall (fun d => d < b) D -> count_in D 0 b = vlen D.
 Proof.
   intros Hall. unfold count_in, vlen. induction Hall as [|d D Hd Hall IH]; [reflexivity|]. cbn [filter].
   destruct (N.leb_spec 0 d); [|lia]. destruct (N.ltb_spec d b); [|lia]. cbn [andb length]. lia.
+Qed.
+
+Definition sum_nums (subs : list subseg) : N := fold_right (fun ss a => ss_num ss + a) 0 subs.
+
+Lemma seg_own_ok : forall subs num, sum_nums subs <= num -> num < 4294967296 ->
+  seg_own num subs = num - sum_nums subs.
+Proof.
+  unfold seg_own. induction subs as [|s r IH]; intros num Hs Hn; cbn [fold_left sum_nums fold_right] in *; [lia|].
+  assert (Hsn : ss_num s <= num) by lia.
+  rewrite (wrap32_small (ss_num s)) by lia.
+  assert (Hw : wrap32 (num + 4294967296 - ss_num s) = num - ss_num s).
+  { unfold wrap32, wrapN. change (2 ^ 32) with 4294967296.
+    replace (num + 4294967296 - ss_num s) with ((num - ss_num s) + 1 * 4294967296) by lia.
+    rewrite N.mod_add by lia. apply N.mod_small. lia. }
+  rewrite Hw. rewrite IH by (fold (sum_nums r) in *; lia). fold (sum_nums r). lia.
+Qed.
+
+Lemma subs_tile_sum : forall p subs e, subs_tile p subs e -> p + sum_nums subs = e.
+Proof. induction 1 as [p|p s r e Hst Hr IH]; cbn [sum_nums fold_right]; [lia|]. fold (sum_nums r). lia. Qed.
+
+Lemma layout_subs_sum start subs : sum_nums (layout_subs start subs) = sum_nums subs.
+Proof.
+  revert start. induction subs as [|s r IH]; intros start; [reflexivity|]. cbn [layout_subs sum_nums fold_right ss_num].
+  fold (sum_nums (layout_subs (wrap32 (start + ss_num s * 3)) r)). fold (sum_nums r). rewrite IH. reflexivity.
 Qed.
 
 Section Refit.
@@ -461,30 +478,44 @@ Section Refit.
       apply IH; [unfold n'; lia|exact He].
   Qed.
 
+  (* a segment keeps its shape: own triangles first, then the sub-segments, ending at its end *)
   Lemma refit_seg pos s q : seg_tile pos s -> q <= pos -> 3 * (pos + sg_num s) < 4294967296 ->
-    seg_tile_w q (mkSeg (3 * q) (sg_num (seg_shrink D s)) (sg_nsub (seg_shrink D s))
-                        (layout_subs (3 * q) (sg_subs (seg_shrink D s)))) /\
-    sg_num (seg_shrink D s) = sg_num s - count_in D pos (pos + sg_num s).
+    let s' := seg_shrink D s in
+    seg_tile q (mkSeg (3 * q) (sg_num s') (sg_nsub s')
+                      (layout_subs (wrap32 (3 * q + seg_own (sg_num s') (sg_subs s') * 3)) (sg_subs s'))) /\
+    sg_num s' = sg_num s - count_in D pos (pos + sg_num s).
   Proof.
-    intros (Hst & Hns & own & Hown & Hsubs) Hq Hb.
-    assert (Hnum : sg_num (seg_shrink D s) = sg_num s - count_in D pos (pos + sg_num s)).
-    { unfold seg_shrink. cbn [sg_num]. rewrite Hst. apply shrink_count_tile; lia. }
+    intros (Hst & Hns & own & Hown & Hsubs) Hq Hb s'.
+    assert (Hnum : sg_num s' = sg_num s - count_in D pos (pos + sg_num s)).
+    { unfold s', seg_shrink. cbn [sg_num]. rewrite Hst. apply shrink_count_tile; lia. }
     split; [|exact Hnum].
-    unfold seg_tile_w. cbn [sg_start sg_nsub sg_subs sg_num].
+    assert (Hsubs' : sg_subs s' = map shrink_sub (sg_subs s)) by reflexivity.
+    pose proof (count_in_split D pos (pos + own) (pos + sg_num s) ltac:(lia) ltac:(lia)) as Hsp.
+    pose proof (count_in_bound D pos (pos + own) Hnd) as Hb1.
+    pose proof (count_in_bound D (pos + own) (pos + sg_num s) Hnd) as Hb2.
+    set (csub := count_in D (pos + own) (pos + sg_num s)) in *.
+    set (cown := count_in D pos (pos + own)) in *.
+    (* the shrunk sub-segments still sum to what is left of the sub-segment part *)
+    assert (Hsum : sum_nums (sg_subs s') = (sg_num s - own) - csub).
+    { pose proof (refit_subs _ _ _ Hsubs 0 ltac:(lia) ltac:(lia)) as Ht.
+      apply subs_tile_sum in Ht. rewrite layout_subs_sum in Ht. rewrite Hsubs'. lia. }
+    assert (Hown' : seg_own (sg_num s') (sg_subs s') = own - cown).
+    { rewrite seg_own_ok by lia. lia. }
+    unfold seg_tile. cbn [sg_start sg_nsub sg_subs sg_num].
     split; [reflexivity|]. split.
-    { unfold seg_shrink. cbn [sg_nsub sg_subs]. unfold vlen. rewrite layout_subs_length, map_length. exact Hns. }
-    exists (q + ((pos + sg_num s - (pos + own)) - count_in D (pos + own) (pos + sg_num s))). split.
-    - unfold seg_shrink. cbn [sg_subs]. apply (refit_subs _ _ _ Hsubs); lia.
-    - rewrite Hnum.
-      pose proof (count_in_split D pos (pos + own) (pos + sg_num s) ltac:(lia) ltac:(lia)) as Hsp.
-      pose proof (count_in_bound D pos (pos + own) Hnd). lia.
+    { unfold s', seg_shrink. cbn [sg_nsub sg_subs]. unfold vlen. rewrite layout_subs_length, map_length. exact Hns. }
+    exists (own - cown). split; [lia|].
+    rewrite Hown'. rewrite wrap32_small by lia.
+    replace (3 * q + (own - cown) * 3) with (3 * (q + (own - cown))) by lia.
+    replace (q + sg_num s') with (q + (own - cown) + ((pos + sg_num s - (pos + own)) - csub)) by lia.
+    rewrite Hsubs'. apply (refit_subs _ _ _ Hsubs); lia.
   Qed.
 
   Lemma segs_tile_le : forall p segs e, segs_tile p segs e -> p <= e.
   Proof. induction 1; lia. Qed.
 
   Lemma refit_segs : forall pos segs e, segs_tile pos segs e -> forall q, q <= pos -> 3 * e < 4294967296 ->
-    segs_tile_w q (layout_segs (3 * q) (map (seg_shrink D) segs)) (q + ((e - pos) - count_in D pos e)).
+    segs_tile q (layout_segs (3 * q) (map (seg_shrink D) segs)) (q + ((e - pos) - count_in D pos e)).
   Proof.
     induction 1 as [p|p s r e Hs Hr IH]; intros q Hq He.
     - cbn [map layout_segs]. replace (q + (p - p - count_in D p p)) with q by lia. constructor.
@@ -504,11 +535,12 @@ Section Refit.
   Qed.
 End Refit.
 
-(* the statement for a deletion: after SetSegmentation-style tables ([segs_tile 0 segs nt]) the
-   re-fitted tables are contiguous, ordered, inside the new triangle list and sum to its size *)
+(* the statement for a deletion: tables that tile the triangle list as SetSegmentation leaves them
+   still tile the new triangle list after the re-fit, and every range has lost exactly the dropped
+   triangles that lay inside it *)
 Theorem refit_keeps_ranges idx tris segs :
   segs_tile 0 segs (vlen tris) -> 3 * vlen tris < 4294967296 ->
-  segs_tile_w 0 (segs_refit_spec (rev (del_pos idx tris)) segs) (vlen (tris_spec idx tris)).
+  segs_tile 0 (segs_refit_spec (rev (del_pos idx tris)) segs) (vlen (tris_spec idx tris)).
 Proof.
   intros Ht Hb. set (D := rev (del_pos idx tris)).
   assert (Hsd : sorted_lt (del_pos idx tris)) by apply del_pos_from_sorted.
@@ -535,7 +567,7 @@ Theorem bs_sits_delete_ranges b idx :
   exists b', bs_delete b idx = Ok b' /\
     bs_tris b' = tris_spec idx (bs_tris b) /\ bs_nt b' = vlen (bs_tris b') /\
     sn_nprim (bs_segn b') = bs_nt b' /\
-    segs_tile_w 0 (sn_segs (bs_segn b')) (bs_nt b').
+    segs_tile 0 (sn_segs (bs_segn b')) (bs_nt b').
 Proof.
   intros Hs Hk Hwf Hseg Htile Hnp Hb.
   exists (bs_sits_spec b idx). split; [apply bs_sits_delete_ok; assumption|].
